@@ -1,6 +1,7 @@
 package main
 
 import (
+	"bytes"
 	"fmt"
 	"runtime"
 	"strings"
@@ -15,6 +16,19 @@ import (
 var symbols = map[string]string{
 	"S": " ", "T": "\t", "N": "\n", "R": "\r", "Q": "\"", "B": "\\",
 	"2": "é", "3": "€", "4": "\U0001F600", "Z": "\x00", "X": "\x80",
+}
+
+// The UTF-8 byte order mark.  It is not part of the text: reference tables are computed on the
+// input without a leading BOM, and offsets reported by the AST are compared relative to the first
+// byte after it (MCSrcPos.tla / MCParseInputs.tla state this; for mutants it is the driver's rule).
+var bomBytes = []byte{0xEF, 0xBB, 0xBF}
+
+func withBOM(text []byte) []byte {
+	return append(append([]byte{}, bomBytes...), text...)
+}
+
+func withoutBOM(input []byte) []byte {
+	return bytes.TrimPrefix(input, bomBytes)
 }
 
 func concretise(syms []string) ([]byte, error) {
